@@ -56,8 +56,11 @@ theorem step_objConsistent (objfn : R → P → Val) (avg : Nat → R → R → 
       · subst hsl; exact hop sl0 hsl0
       · exact hs sl hsl
   | addPoint x r v en =>
-    simp only [step, Except.ok.injEq, addPoint] at h
+    simp only [step] at h
     simp only [OpConsistent] at hop
+    split at h
+    case isFalse => simp at h
+    simp only [Except.ok.injEq, addPoint] at h
     split at h <;> subst h <;> intro sl hsl <;> simp only [List.mem_append, List.mem_singleton] at hsl <;>
       rcases hsl with hsl | hsl <;> first | exact hs sl hsl | (subst hsl; exact hop)
   | shift => simp only [step, Except.ok.injEq] at h; subst h; exact hs
@@ -105,7 +108,11 @@ theorem step_koptMin (avg : Nat → R → R → R) {s s' : MState P R} (hk : s.k
   | change k x r v en a => exact changePoint_koptMin hk hs hg h
   | swap k1 k2 => exact swap_koptMin hs h
   | sample k r v => exact addSample_koptMin avg h
-  | addPoint x r v en => simp only [step, Except.ok.injEq] at h; subst h; exact addPoint_koptMin hk hs _ _ _ _
+  | addPoint x r v en =>
+    simp only [step] at h
+    split at h
+    · simp only [Except.ok.injEq] at h; subst h; exact addPoint_koptMin hk hs _ _ _ _
+    · simp at h
   | shift => simp only [step, Except.ok.injEq] at h; subst h; exact hs
   | save x r v ns en =>
     simp only [step, Except.ok.injEq, savePoint] at h
